@@ -196,13 +196,22 @@ struct SlabHarness : HarnessBase {
 			g_shadow = (unsigned char *)mmap(nullptr, ARENA_SIZE + 2 * SLACK, PROT_READ | PROT_WRITE, MAP_PRIVATE | MAP_ANONYMOUS | MAP_NORESERVE, -1, 0);
 		}
 		measure();
+#if VERIF_ASAN
+		san_hook() = &classify_report;
+#endif
 	}
-	const char *prop() const { return "C01"; }
+	// a library assertion or crash inside a legal call is a violation of whichever of C01-C03 is being checked
+	const char *prop() const { const std::string &w = wanted_prop(); return w == "C02" ? "C02" : w == "C03" ? "C03" : "C01"; }
 	// an ASan report inside a mapped region is a touch of a poisoned byte (C03); outside it is a wild access (C01)
+	// (classified at the moment of the report: by the time the operation returns the region may have been unmapped)
+	static inline const char *g_asan_class = "C01";
+	static void classify_report(uintptr_t a) {
+		g_asan_class = "C01";
+		for(auto &kv : PS.regions) if(a >= kv.first && a < kv.first + kv.second.len) g_asan_class = "C03";
+	}
 	std::string asan_prop() {
 #if VERIF_ASAN
-		uintptr_t a = san_addr();
-		for(auto &kv : PS.regions) if(a >= kv.first && a < kv.first + kv.second.len) return "C03";
+		return g_asan_class;
 #endif
 		return "C01";
 	}
